@@ -3,6 +3,7 @@ package c09
 import (
 	"fmt"
 	"testing"
+	"time"
 
 	"github.com/fiorix/go-diameter/v4/diam"
 	"pgregory.net/rapid"
@@ -50,18 +51,33 @@ func runHistory(c HCase) *ev.Failure {
 		if op.Reg != nil {
 			r := *op.Reg
 			h := &recHandler{id: i, calls: &calls}
+			// the registration runs on its own goroutine so that a mux left locked by an earlier
+			// step shows as a verdict instead of a hung test binary
+			regDone := make(chan struct{})
+			go func() {
+				defer close(regDone)
+				switch {
+				case r.Idx != nil && r.Name == "ALL":
+					// the catch-all through the index entry point: the same key as Handle("ALL")
+					mux.HandleIdx(diam.ALL_CMD_INDEX, h)
+				case r.Idx != nil:
+					mux.HandleIdx(diam.CommandIndex{AppID: r.Idx.App, Code: r.Idx.Code, Request: r.Idx.Req}, h)
+				case r.Func:
+					mux.HandleFunc(r.Name, h.ServeDIAM)
+				default:
+					mux.Handle(r.Name, h)
+				}
+			}()
+			select {
+			case <-regDone:
+			case <-time.After(10 * time.Second):
+				return ev.Failf("history:registration-blocked", "step %d: registering %s did not return within 10 s although no handler is running: the mux was left locked by an earlier step", i, describe(op.Reg))
+			}
 			switch {
 			case r.Idx != nil && r.Name == "ALL":
-				// the catch-all through the index entry point: the same key as Handle("ALL")
-				mux.HandleIdx(diam.ALL_CMD_INDEX, h)
 				model.all = i
 			case r.Idx != nil:
-				mux.HandleIdx(diam.CommandIndex{AppID: r.Idx.App, Code: r.Idx.Code, Request: r.Idx.Req}, h)
 				model.idx[*r.Idx] = i
-			case r.Func:
-				mux.HandleFunc(r.Name, h.ServeDIAM)
-			default:
-				mux.Handle(r.Name, h)
 			}
 			if r.Idx == nil {
 				if r.Name == "ALL" {
